@@ -542,6 +542,11 @@ def check_property(prop, tier, only, jobs, seed):
         r["replay_outcomes"] = []
         confirmed = False
         pbs = [p for p in r.get("playbacks", []) if p["desc"] in unknown] + [p for p in r.get("playbacks", []) if p["desc"] not in unknown]
+        if not pbs:
+            # a harness without symbolic draws (a concrete scenario decided by the solver) has no assignment to
+            # print: its replay is the native run of the same body on the empty assignment.  (A harness that does
+            # draw values stops natively with VS-REPLAY on an empty file and is reported as not reproduced.)
+            pbs = [{"kind": "assert", "desc": unknown[0], "values": []}]
         for pb in pbs[:8]:
             path = write_replay_file(prop, h, pb, spec)
             rep, msg = native_replay(effective_spec(spec, h), h["name"], h["path"], path)
